@@ -112,7 +112,9 @@ func (e *Entry) Entry() *Entry {
 
 // IsDeletedOrExpired reports whether the entry is a tombstone or has passed its expiry.
 func (e *Entry) IsDeletedOrExpired() bool {
-	if e.Value == nil {
+	// A tombstone read back from a memtable or an SST carries an empty, non-nil value:
+	// the delete bit is what marks it.
+	if e.Meta&BitDelete != 0 || e.Value == nil {
 		return true
 	}
 	if e.ExpiresAt == 0 {
